@@ -394,13 +394,13 @@ def c_status():
     h.functions = ["litex.soc.interconnect.packet.Status.__init__"]
     return h
 
-def c_packetfifo(payload_depth=4, param_depth=2):
+def c_packetfifo(payload_depth=4, param_depth=2, buffered=False):
     lay = stream.EndpointDescription([("data", 4)], [("p", 3)])
-    d = mk(PacketFIFO, lay, payload_depth, param_depth); sink, source = d.sink, d.source
-    h = HwCheck(f"PacketFIFO(payload={payload_depth},param={param_depth})", d, ep_inputs(sink, source))
+    d = mk(PacketFIFO, lay, payload_depth, param_depth, buffered); sink, source = d.sink, d.source
+    h = HwCheck(f"PacketFIFO(payload={payload_depth},param={param_depth}{',buffered' if buffered else ''})", d, ep_inputs(sink, source))
     producer_holds(h, sink)
     in_fire, out_fire = fire(h, sink), fire(h, source)
-    PD = param_depth + 1; NW = max(3, (PD + 2).bit_length())
+    PD = param_depth + 1 + (1 if buffered else 0); NW = max(3, (PD + 2).bit_length())          # a buffered SyncFIFO holds depth + 1 tokens
     npk = h.ghost("npk", NW)                          # complete packets stored
     pq = [h.ghost(f"pq{i}", 3) for i in range(PD + 1)]
     push = z3.And(in_fire, b(h.v(sink.last))); pop = z3.And(out_fire, b(h.v(source.last)))
@@ -409,7 +409,7 @@ def c_packetfifo(payload_depth=4, param_depth=2):
     h.ghost_next(npk, z3.If(push, plen + 1, plen))
     for i in range(PD + 1): h.ghost_next(pq[i], z3.If(z3.And(push, plen == K(i, NW)), h.v(sink.p), pqs[i]))
     # payload beats: ghost FIFO of (last,data)
-    CAP = payload_depth; LW = max(3, (CAP + 2).bit_length())
+    CAP = payload_depth + (1 if buffered else 0); LW = max(3, (CAP + 2).bit_length())
     qlen = h.ghost("qlen", LW); q = [h.ghost(f"q{i}", 5) for i in range(CAP + 1)]
     popb = out_fire; plb = z3.If(popb, qlen - 1, qlen)
     qs = [z3.If(popb, q[i + 1] if i + 1 <= CAP else q[i], q[i]) for i in range(CAP + 1)]
@@ -420,12 +420,20 @@ def c_packetfifo(payload_depth=4, param_depth=2):
     try:
         from .stream_cases import slots_of
         pf = d.payload_fifo; prf = d.param_fifo
-        h.hint("npk=level", zx(h.v(prf.fifo.level), NW) == npk); h.hint("qlen=level", zx(h.v(pf.fifo.level), LW) == qlen)
         h.hint("npk<=PD", ule(npk, PD)); h.hint("qlen<=CAP", ule(qlen, CAP))
+        # slots from the output side to the input side (a buffered FIFO has its output register in front): the k-th occupied slot holds the k-th queued token
+        cntq = K(0, LW)
         for i, (occ, t) in enumerate(slots_of(h, pf)):       # token order: first,last,data
-            h.hint(f"pay{i}", z3.Implies(occ, z3.Extract(4, 0, t) == q[i]))
+            for j in range(min(i + 1, len(q))): h.hint(f"pay{i}@{j}", z3.Implies(z3.And(occ, cntq == K(j, LW)), z3.Extract(4, 0, t) == q[j]))
+            cntq = cntq + z3.If(occ, K(1, LW), K(0, LW))
+        h.hint("qlen=occupied", qlen == cntq)
+        cntp = K(0, NW)
         for i, (occ, t) in enumerate(slots_of(h, prf)):      # first,last,param
-            h.hint(f"par{i}", z3.Implies(occ, z3.Extract(2, 0, t) == pq[i]))
+            for j in range(min(i + 1, len(pq))): h.hint(f"par{i}@{j}", z3.Implies(z3.And(occ, cntp == K(j, NW)), z3.Extract(2, 0, t) == pq[j]))
+            cntp = cntp + z3.If(occ, K(1, NW), K(0, NW))
+        h.hint("npk=occupied", npk == cntp)
+        if buffered:         # both output registers are loaded with the same latency: a presented parameter word implies a presented payload beat
+            h.hint("rd-sync", z3.Implies(b(h.v(prf.fifo.readable)), b(h.v(pf.fifo.readable))))
         # complete packets stored == number of `last` beats among the stored payload beats
         cnt = K(0, NW)
         for i in range(CAP): cnt = cnt + z3.If(z3.And(ugt(qlen, i), b(z3.Extract(4, 4, q[i]))), K(1, NW), K(0, NW))
@@ -437,7 +445,7 @@ def c_packetfifo(payload_depth=4, param_depth=2):
     h.ensure("ens.beat", z3.Implies(b(h.v(source.valid)), z3.And(qlen != K(0, LW), cat(h.v(source.last), h.v(source.data)) == q[0])))
     h.ensure("ens.cap", z3.And(z3.Implies(push, ule(plen, PD - 1)), z3.Implies(in_fire, ule(plb, CAP - 1))))
     hold_clause(h, source)
-    h.respond("resp.release", z3.BoolVal(True), b(h.v(source.valid)), 3, start=npk != K(0, NW))
+    h.respond("resp.release", z3.BoolVal(True), b(h.v(source.valid)), 3 + (1 if buffered else 0), start=npk != K(0, NW))
     h.cover("cover.two-packets", npk == K(2, NW), depth=6)
     h.functions = ["litex.soc.interconnect.packet.PacketFIFO.__init__", "litex.soc.interconnect.stream.SyncFIFO.__init__ (flattened)"]
     h.cosim_cycles = 16
@@ -459,7 +467,7 @@ def all_cases(tier):
           ("Packetizer(dw=32,3B,short)", c_short_header, "packetizer", 32, 3), ("Depacketizer(dw=32,3B,short)", c_short_header, "depacketizer", 32, 3),
           ("Dispatcher(2)", c_dispatcher, 2), ("Dispatcher(3)", c_dispatcher, 3), ("Dispatcher(3,one_hot)", c_dispatcher, 3, True), ("Dispatcher(4)", c_dispatcher, 4),
           ("Arbiter(2)", c_arbiter, 2), ("Arbiter(3)", c_arbiter, 3), ("Status", c_status),
-          ("PacketFIFO(4,2)", c_packetfifo, 4, 2)]
+          ("PacketFIFO(4,2)", c_packetfifo, 4, 2), ("PacketFIFO(4,2,buffered)", c_packetfifo, 4, 2, True)]
     if tier == "thorough":
         cs += [("Packetizer(dw=64,31B,unaligned)", c_packetizer_unaligned, 64, mkfields(31), 31), ("Depacketizer(dw=64,31B,unaligned)", c_depacketizer_unaligned, 64, mkfields(31), 31),
                ("Packetizer(dw=16,31B,unaligned)", c_packetizer_unaligned, 16, mkfields(31), 31), ("Depacketizer(dw=16,31B,unaligned)", c_depacketizer_unaligned, 16, mkfields(31), 31),
